@@ -145,3 +145,12 @@ CHECKS["C04"] = (
     "DESIGN.md#c04",
 )
 NA.pop("C04", None)
+
+CHECKS["C20"] = (
+    "other",
+    "static analysis: CFG post-dominance with exception edges (close discipline), who-may-open table, terminating-shape rule per while loop with constant propagation of the end-of-stream value through stream loops, EXITS effect summaries over the loader registries, dominance + integer-kind inference for binary header guards, regex syntax-tree star height",
+    "Decides the structural clauses of clean loading for every input: a file opened by _parse_file_args is closed under was_opened on every normal and exceptional path out of load_scene / _load_compressed / load_path, nothing can raise explicitly between the open and the hand-over, every other open / temporary file in loader modules is a with-item; each while loop in the loader modules leaves the loop once its stream is exhausted or makes progress on a finite resource on every path (visited-set discipline for worklists); no registered loader reaches sys.exit / os._exit; the binary STL and PLY bulk reads are dominated by a header-versus-length test computed in Python integers and STL allocations use the validated count; loader regexes have no nested unbounded repetition. Time / memory proportionality in general, third-party parsers and format-inherent expansion (RLE, sparse accessors) are not decided.",
+    "Trusted: CFG construction with exception edges (inert local bindings cannot raise), the end-of-stream model (read / readline return the empty object, next raises StopIteration), host-interpreter folding of pure str / bytes / list methods, the reviewed who-may-open table, numpy 2 promotion (python int does not widen a fixed-width operand). Unrecognised loop shapes are recorded as undecided.",
+    "DESIGN.md#c20",
+)
+NA.pop("C20", None)
